@@ -35,23 +35,24 @@ var etypeNames = map[int32]string{16: "des3-cbc-sha1-kd", 17: "aes128-cts-hmac-s
 
 // Opts selects a configuration.
 type Opts struct {
-	Cred           string        `json:"cred"` // "password" | "keytab"
-	ETypes         []int32       `json:"etypes"`
-	PreAuth        string        `json:"preauth"` // "none" | "required" | "assumed"
-	Forwardable    bool          `json:"forwardable"`
-	Proxiable      bool          `json:"proxiable"`
-	Canonicalize   bool          `json:"canonicalize"`
-	RenewLifetime  time.Duration `json:"renew_lifetime"`
-	TicketLifetime time.Duration `json:"ticket_lifetime"`
-	UDPLimit       int           `json:"udp_preference_limit"`
-	NKDC           int           `json:"kdcs"`
-	FAST           bool          `json:"pa_fx_fast"`
-	Salt           *string       `json:"salt"`
-	Seed           int64         `json:"seed"`
-	ChainRealms    int           `json:"chain_realms"` // additional realms R1..Rn linked in a referral chain behind TEST
-	ChainCycle     bool          `json:"chain_cycle"`  // the last chain realm refers back to R1 instead of holding the service
-	LenientCRealm  bool          `json:"lenient_authenticator_crealm"`
-	FreshRenewKey  bool          `json:"kdc_issues_new_key_on_renewal"`
+	Cred             string        `json:"cred"` // "password" | "keytab"
+	ETypes           []int32       `json:"etypes"`
+	PreAuth          string        `json:"preauth"` // "none" | "required" | "assumed"
+	Forwardable      bool          `json:"forwardable"`
+	Proxiable        bool          `json:"proxiable"`
+	Canonicalize     bool          `json:"canonicalize"`
+	RenewLifetime    time.Duration `json:"renew_lifetime"`
+	TicketLifetime   time.Duration `json:"ticket_lifetime"`
+	UDPLimit         int           `json:"udp_preference_limit"`
+	NKDC             int           `json:"kdcs"`
+	FAST             bool          `json:"pa_fx_fast"`
+	Salt             *string       `json:"salt"`
+	Seed             int64         `json:"seed"`
+	ChainRealms      int           `json:"chain_realms"` // additional realms R1..Rn linked in a referral chain behind TEST
+	ChainCycle       bool          `json:"chain_cycle"`  // the last chain realm refers back to R1 instead of holding the service
+	LenientCRealm    bool          `json:"lenient_authenticator_crealm"`
+	FreshRenewKey    bool          `json:"kdc_issues_new_key_on_renewal"`
+	PasswordOverride string        `json:"-"` // C20: a marker password instead of the default one
 }
 
 // DefaultOpts is the baseline configuration.
@@ -151,7 +152,7 @@ func New(o Opts) *World {
 		if o.PreAuth == "assumed" {
 			params = nil // without a hint from the KDC the client can only use the default parameters
 		}
-		w.KDC.AddPasswordPrincipal([]string{User}, Password, o.ETypes, o.Salt, params)
+		w.KDC.AddPasswordPrincipal([]string{User}, w.PasswordValue(), o.ETypes, o.Salt, params)
 	} else {
 		p := w.KDC.AddKeyPrincipal([]string{User}, o.ETypes)
 		var items []keytabfmt.Item
@@ -213,6 +214,14 @@ func New(o Opts) *World {
 	return w
 }
 
+// PasswordValue is the password of the world's user.
+func (w *World) PasswordValue() string {
+	if w.Opts.PasswordOverride != "" {
+		return w.Opts.PasswordOverride
+	}
+	return Password
+}
+
 // NewClient builds another client for the same world.
 func (w *World) NewClient(extra ...func(*client.Settings)) *client.Client {
 	sets := []func(*client.Settings){client.DisablePAFXFAST(!w.Opts.FAST)}
@@ -221,7 +230,7 @@ func (w *World) NewClient(extra ...func(*client.Settings)) *client.Client {
 	}
 	sets = append(sets, extra...)
 	if w.Opts.Cred == "password" {
-		return client.NewWithPassword(User, Realm, Password, w.Config, sets...)
+		return client.NewWithPassword(User, Realm, w.PasswordValue(), w.Config, sets...)
 	}
 	kt := keytab.New()
 	if err := kt.Unmarshal(w.Keytab); err != nil {
